@@ -197,5 +197,5 @@ def build_kernels(rel, opts):
         prog = eg.generate()
         kernels.append(Kernel(name=f"{rel}:{eir.expression.name[:40]}:expression", kind="expression",
                               integral_type="expression", program=prog, ir=eir, ext=ext, options=options, file=rel,
-                              original=original, points=points))
+                              original=original, points=points, processed=processed))
     return kernels, ir, analysis, ufd
